@@ -147,7 +147,7 @@ func init() {
 	registry["C11"] = func() Check {
 		return &SeqCheck{Prop: "C11",
 			Ideal: famPlan(3), IdealDeep: famPlan(4), IdealProps: []string{"P_C11"}, Probes: probePlanIDs,
-			GenQuick: with(famPlan(2), func(m *SeqModel) { m.Extras = append(m.Extras, "trailing") }),
+			GenQuick:    with(famPlan(2), func(m *SeqModel) { m.Extras = append(m.Extras, "trailing") }),
 			GenThorough: with(famPlan(4), func(m *SeqModel) { m.Extras = append(m.Extras, "trailing") }), SampleQuick: 100,
 			Sim: famPlan(8), SimNumQuick: 60, SimNumThorough: 1500}
 	}
@@ -184,7 +184,7 @@ func init() {
 	}
 	registry["C20"] = func() Check {
 		return &SeqCheck{Prop: "C20",
-			Ideal: famResults(4), IdealDeep: famResults(5), IdealProps: []string{"P_C20"}, Probes: probeCompact,
+			Ideal: famResults(4), IdealDeep: famResults(5), IdealProps: []string{"P_C20"}, Probes: append(append([]emitted{}, probeCompact...), probeEvidence...),
 			GenQuick: famResults(3), GenThorough: famResults(5), SampleQuick: 100,
 			Sim: famResults(10), SimNumQuick: 60, SimNumThorough: 1500}
 	}
